@@ -178,6 +178,24 @@ def preexisting_group_cases(ck):
                 out.append({"segs": [list(x) for x in segs], "groups": [list(g) for g in gs], "notes": {},
                             "root": ref["root"] if (si + ti) % 2 == 0 else rng.choice(sids), "reorder": bool(si % 2),
                             "optimise": opt, "ref": ref, "kind": "stored:groups-with-repeats"})
+    # old groups whose ids look like the generated names seg_group_<n>_seg_<id> (left by an earlier run on another
+    # version of the cell, or hand-made): the new groups must still be NEW groups and the old ones untouched
+    for ti, segs in enumerate(trees):
+        ref = reference(segs)
+        sids = [x[0] for x in segs]
+        root = ref["root"]
+        kids = [k for p_, ks in ref["kids"].items() if len(ks) > 1 for k in ks] or sids[:2]
+        for G in (1, 2, 4):
+            for variant in range(2):
+                r = root if variant == 0 else rng.choice(sids)
+                names = ["seg_group_%d_seg_%d" % (G, r)] + ["seg_group_%d_seg_%d" % (G + j, k) for j, k in enumerate(kids[:G - 1])]
+                names += ["seg_group_%d_seg_%d" % (G + 1, r)] if variant else []
+                names = list(dict.fromkeys(names))[:G]
+                while len(names) < G:
+                    names.append("plain_%d" % len(names))
+                gs = [[nm, ([sids[-1]] if i % 2 == 0 else []), [], (SECTION if i == 1 else None)] for i, nm in enumerate(names)]
+                out.append({"segs": [list(x) for x in segs], "groups": gs, "notes": {}, "root": r, "reorder": bool(G % 2),
+                            "optimise": bool(variant), "ref": ref, "kind": "stored:old-groups-with-generated-style-ids"})
     return out
 
 
@@ -442,7 +460,7 @@ def ccase(case, out):
 HEADER = ("From Coq Require Import List ZArith QArith String.\nFrom LNML Require Import Model.Morph Model.Section.\n"
           "Import ListNotations.\nOpen Scope string_scope.\nOpen Scope Z_scope.\n")
 COMPONENT = {1: "create_branches.segments", 2: "create_branches.groups", 3: "sect_vs_sect_tree",
-             4: "outside-the-hypotheses-of-C16_model_correct"}
+             4: "cell-or-tree-outside-the-hypotheses-of-C16_model_correct"}
 
 
 # ------------------------------------------------------------------------------------------ stored big inputs
